@@ -39,6 +39,9 @@ void StepsStop();
 uint32_t StepsLastGuard();        // guard id at which the budget ran out
 uint64_t StepsLassoVisits();
 uintptr_t StepsLastPc();
+// Call stack (return addresses) at the moment the recurrence was proven or the
+// budget ran out.
+int StepsLastBacktrace(void **out, int max);
 
 // Edge bitmap (per process, cumulative).
 uint32_t StepsNumGuards();
